@@ -7,7 +7,7 @@ import subprocess
 import time
 
 from . import comm_scen
-from .common import (BIN, ToolError, build_harness, finish, load_findings, log, save_replay, tlc_mc,
+from .common import (harness_limits, BIN, ToolError, build_harness, finish, load_findings, log, save_replay, tlc_mc,
                      validate_sharded, workdir, write_evidence)
 
 PREFIX = {"C01": "C01_", "C02": "C02_", "C03": "C03_", "C04": "C04_"}
@@ -56,7 +56,8 @@ def run_replay(scen_path, trace_path, seed):
     for _ in range(400):
         r = subprocess.run([os.path.join(BIN, "comm_replay"), scen_path, trace_path, "--seed", str(seed),
                             "--start-line", str(start)],
-                           stdout=subprocess.PIPE, stderr=subprocess.PIPE, text=True, timeout=1500, start_new_session=True)
+                           stdout=subprocess.PIPE, stderr=subprocess.PIPE, text=True, timeout=1500, start_new_session=True,
+                           preexec_fn=harness_limits)
         if r.returncode == 3 and "RESUME" in r.stderr:
             # the library span without system calls in one scenario (recorded as cpu_spin); carry on after it
             start = int(r.stderr.split("RESUME")[1].split()[0])
